@@ -865,6 +865,10 @@ static enum cc_stat expand_capacity(CC_Array *ar)
             new_capacity = CC_MAX_ELEMENTS;
     }
 
+    /* The buffer size in bytes must not wrap around. */
+    if (new_capacity > CC_MAX_ELEMENTS / sizeof(void*))
+        return CC_ERR_MAX_CAPACITY;
+
     void **new_buff = ar->mem_alloc(new_capacity * sizeof(void*));
 
     if (!new_buff)
